@@ -379,8 +379,11 @@ GRAPHS_QUICK = [
     (3, [(0, 1), (1, 2)], 2, None, None), (3, [], 1, None, None),
     (4, P4, 2, 400, None),
     (5, [(0, 1), (1, 2), (2, 3), (3, 4), (4, 0)], 1, 120, 2),
+    # vertex names with holes (what every rewritten diagram has): the tree must be over the graph's vertices, not over 0..n-1
+    ((0, 2, 3, 5), [(0, 2), (2, 3), (3, 5)], 1, 150, None), ((1, 4, 6), [(1, 4)], 2, None, None),
 ]
 GRAPHS_THOROUGH = [
+    ((0, 2, 3, 5), [(0, 2), (2, 3), (3, 5)], 2, 400, None), ((1, 4, 6), [(1, 4)], 2, None, None),
     (2, [(0, 1)], 3, None, None), (2, [], 3, None, None),
     (3, [(0, 1), (1, 2)], 3, None, None), (3, [], 2, None, None), (3, [(0, 1)], 2, None, None), (3, [(0, 1), (1, 2), (0, 2)], 2, None, None),
     (4, P4, 1, None, None),                                   # to the fixpoint: every layout of every tree on four leaves
